@@ -4,7 +4,9 @@
    reallocs are defined).  Each lemma is the refinement step of one container operation against
    the abstract list held in the node: contents after = contents before ++ [x] on success, nothing
    changed on refusal. *)
-From CB Require Import Word PMem HHeap HItems HCont_proofs.
+From CB Require Import Word PMem HHeap HItems HOps HHist HRef_proofs HCont_proofs HCopy_proofs HHist_proofs HSeq_proofs.
+From Coq Require Import List NArith.
+Import ListNotations.
 (* definite array: refuses (touching nothing) exactly when full; otherwise appends and takes one reference; no allocator event *)
 Theorem C12_push_definite :
   forall (refuse : N -> N -> bool) (a x : addr) 
@@ -478,3 +480,168 @@ Theorem C12_array_set_follows_plan :
 Proof. exact array_set_follows_plan. Qed.
 Print Assumptions C12_array_get_follows_plan.
 Print Assumptions C12_array_set_follows_plan.
+Local Open Scope N_scope.
+
+(* ---- containers as abstract sequences over WHOLE operation sequences (theories/HSeq_proofs.v) ----
+   The abstract models (HSeq_proofs): alist = { a_indef; a_cap; a_elems } with apush / aget / aset /
+   areplace returning the results documented in arrays.h; amap with amadd (cbor_map_add); achunks with
+   acadd (cbor_(byte)string_add_chunk).  [granted refuse isz w c] is the allocator's answer to the one
+   growth request a call may make in world w at capacity c (slot size isz; a growth the size guards
+   refuse counts as not granted).  arr_at w p l: the node of item p in w is an array with
+   elems = a_elems l, allocated = a_cap l, and len elems <= allocated (likewise map_at, chunks_at).
+   Restriction, explicit in the statements: the history after the container has been set up is in the
+   sub-language [arr_lang h] = the ten plain constructors + push / get / set / replace on the handle h
+   of the container, with ARBITRARY indices and ARBITRARY operand handles (legality itself forbids
+   inserting the array into itself); [map_lang h]: constructors + map_add on h; [chunk_lang h]:
+   constructors + add_chunk on h.  Legality is exactly that of C04_history. *)
+
+(* the documented index rules, as properties of the abstract operations *)
+Theorem C12_abstract_rules : forall g l i x,
+  (aget l i = None <-> (len (a_elems l) <= i)%N) /\
+  (fst (areplace l i x) = false <-> (len (a_elems l) <= i)%N) /\
+  aset g l (len (a_elems l)) x = apush g l x /\
+  ((i < len (a_elems l))%N -> aset g l i x = areplace l i x) /\
+  ((len (a_elems l) < i)%N -> aset g l i x = (false, l)).
+Proof.
+  intros g l i x. split; [apply aget_none|]. split; [apply areplace_false|]. split; [apply aset_push|].
+  split; [apply aset_replace|apply aset_beyond].
+Qed.
+(* a definite array refuses a push exactly when it is full; an indefinite one accepts whenever the
+   allocator grants the growth *)
+Theorem C12_abstract_push : forall g l x, (len (a_elems l) <= a_cap l)%N ->
+  (a_indef l = false -> (fst (apush g l x) = false <-> len (a_elems l) = a_cap l)) /\
+  (a_indef l = true -> g = true -> fst (apush g l x) = true).
+Proof.
+  intros g l x Hle. unfold apush. split.
+  - intros ->. cbn [andb]. destruct (N.ltb_spec (len (a_elems l)) (a_cap l)) as [Lt|Ge]; cbn [fst]; split; intros H;
+      try discriminate H; try reflexivity.
+    + rewrite H in Lt. exfalso. exact (N.lt_irrefl _ Lt).
+    + apply N.le_antisymm; assumption.
+  - intros -> ->. destruct (len (a_elems l) <? a_cap l); reflexivity.
+Qed.
+
+(* what [seq_ok] says about one call: it returns, the client observes the abstract output, the node
+   of the array is the abstract list, and the same holds for the rest of the history *)
+Theorem C12_seq_ok_reading : forall refuse L p o r s w l,
+  seq_ok refuse L p (o :: r) s w l <->
+  exists s' out w',
+    step refuse L s o w = Ret (s', out) w' /\
+    out_agrees (fst (astep refuse s w o l)) s' out /\
+    arr_at w' p (snd (astep refuse s w o l)) /\
+    seq_ok refuse L p r s' w' (snd (astep refuse s w o l)).
+Proof. intros. reflexivity. Qed.
+
+(* arrays: for every allocator oracle, every nesting limit, every legal history of the sub-language
+   applied to one array handle (any indices, any operand items): no fault, every output is the
+   abstract one, and after every call elems = a_elems, allocated = a_cap, len elems <= allocated *)
+Theorem C12_array_sequence : forall refuse L h p ops s own ownd w l,
+  Inv own ownd [] w -> caps w -> hget s h = Some p -> (0 < own p)%N -> arr_at w p l ->
+  Forall (arr_lang h) ops -> legal_history refuse L ops s own w -> seq_ok refuse L p ops s w l.
+Proof. exact HSeq_proofs.C12_array_sequence. Qed.
+Print Assumptions C12_array_sequence.
+
+(* ... for an array created anywhere in a legal history that starts in the empty world *)
+Theorem C12_array_sequence_from_empty : forall refuse L h p pre ops s outs w l,
+  legal_history refuse L (pre ++ ops) s0 own0 world0 ->
+  run_hist refuse L pre s0 [] world0 = Ret (s, outs) w ->
+  hget s h = Some p -> (0 < own_hist refuse L pre s0 own0 world0 p)%N -> arr_at w p l ->
+  Forall (arr_lang h) ops -> seq_ok refuse L p ops s w l.
+Proof. exact HSeq_proofs.C12_array_sequence_from_empty. Qed.
+Print Assumptions C12_array_sequence_from_empty.
+
+(* ... read off the whole run: run_hist returns, its outputs are the abstract ones in order, and the
+   array at the end is the abstract list *)
+Theorem C12_array_run : forall refuse L p ops s w l acc,
+  arr_at w p l -> seq_ok refuse L p ops s w l ->
+  exists s' outs w',
+    run_hist refuse L ops s acc w = Ret (s', rev acc ++ outs) w' /\
+    Forall2 out_matches (fst (aouts refuse L ops s w l)) outs /\
+    arr_at w' p (snd (aouts refuse L ops s w l)).
+Proof. exact seq_ok_run. Qed.
+Print Assumptions C12_array_run.
+
+(* maps: cbor_map_add on definite / indefinite maps against the abstract list of pairs *)
+Theorem C12_map_sequence : forall refuse L h p ops s own ownd w m,
+  Inv own ownd [] w -> caps w -> hget s h = Some p -> (0 < own p)%N -> map_at w p m ->
+  Forall (map_lang h) ops -> legal_history refuse L ops s own w -> mseq_ok refuse L p ops s w m.
+Proof. exact HSeq_proofs.C12_map_sequence. Qed.
+Print Assumptions C12_map_sequence.
+Theorem C12_map_sequence_from_empty : forall refuse L h p pre ops s outs w m,
+  legal_history refuse L (pre ++ ops) s0 own0 world0 ->
+  run_hist refuse L pre s0 [] world0 = Ret (s, outs) w ->
+  hget s h = Some p -> (0 < own_hist refuse L pre s0 own0 world0 p)%N -> map_at w p m ->
+  Forall (map_lang h) ops -> mseq_ok refuse L p ops s w m.
+Proof. exact HSeq_proofs.C12_map_sequence_from_empty. Qed.
+Print Assumptions C12_map_sequence_from_empty.
+Theorem C12_mseq_ok_reading : forall refuse L p o r s w m,
+  mseq_ok refuse L p (o :: r) s w m <->
+  exists s' out w',
+    step refuse L s o w = Ret (s', out) w' /\
+    out_agrees (fst (mstep refuse s w o m)) s' out /\
+    map_at w' p (snd (mstep refuse s w o m)) /\
+    mseq_ok refuse L p r s' w' (snd (mstep refuse s w o m)).
+Proof. intros. reflexivity. Qed.
+
+(* chunked strings: cbor_string_add_chunk / cbor_bytestring_add_chunk *)
+Theorem C12_chunk_sequence : forall refuse L h p ops s own ownd w c,
+  Inv own ownd [] w -> caps w -> hget s h = Some p -> (0 < own p)%N -> chunks_at w p c ->
+  Forall (chunk_lang h) ops -> legal_history refuse L ops s own w -> cseq_ok refuse L p ops s w c.
+Proof. exact HSeq_proofs.C12_chunk_sequence. Qed.
+Print Assumptions C12_chunk_sequence.
+Theorem C12_chunk_sequence_from_empty : forall refuse L h p pre ops s outs w c,
+  legal_history refuse L (pre ++ ops) s0 own0 world0 ->
+  run_hist refuse L pre s0 [] world0 = Ret (s, outs) w ->
+  hget s h = Some p -> (0 < own_hist refuse L pre s0 own0 world0 p)%N -> chunks_at w p c ->
+  Forall (chunk_lang h) ops -> cseq_ok refuse L p ops s w c.
+Proof. exact HSeq_proofs.C12_chunk_sequence_from_empty. Qed.
+Print Assumptions C12_chunk_sequence_from_empty.
+Theorem C12_cseq_ok_reading : forall refuse L p o r s w c,
+  cseq_ok refuse L p (o :: r) s w c <->
+  exists s' out w',
+    step refuse L s o w = Ret (s', out) w' /\
+    out_agrees (fst (cstep refuse s w o c)) s' out /\
+    chunks_at w' p (snd (cstep refuse s w o c)) /\
+    cseq_ok refuse L p r s' w' (snd (cstep refuse s w o c)).
+Proof. intros. reflexivity. Qed.
+
+(* non-vacuity.  A definite array of capacity 2 holding the only reference to a 7: push 9 (accepted),
+   push 11 (refused: full), get 5 (NULL), get 1, set 2 (= push: refused), set 7 (beyond: refused),
+   replace 0 (accepted; the 7 is released), set 1 (= replace), replace 9 (refused), push through a
+   NULL handle (not made), get 0.  The history is legal, the theorem applies to it (exA_sequence), and
+   the abstract outputs equal the concrete ones (evaluated). *)
+Example C12_example_array_applies :
+  exists s outs w,
+    run_hist HRef_proofs.never 8 exA_pre s0 [] world0 = Ret (s, outs) w /\
+    arr_at w 1 (mkalist false 2 [3%N]) /\
+    seq_ok HRef_proofs.never 8 1 exA_ops s w (mkalist false 2 [3%N]).
+Proof. exact exA_sequence. Qed.
+Example C12_example_array_outputs :
+  match run_hist HRef_proofs.never 8 exA_pre s0 [] world0 with
+  | Ret (s, _) w =>
+      aouts HRef_proofs.never 8 exA_ops s w (mkalist false 2 [3%N]) =
+        ([AONew; AOBool true; AONew; AOBool false; AOGet None; AOGet (Some 4%N); AOBool false; AOBool false;
+          AOBool true; AOBool true; AOBool false; AOSkip; AOGet (Some 5%N)], mkalist false 2 [5%N; 5%N]) /\
+      match run_hist HRef_proofs.never 8 exA_ops s [] w with
+      | Ret (s', outs) w' =>
+          outs = [OutHandle true; OutBool true; OutHandle true; OutBool false; OutHandle false; OutHandle true;
+                  OutBool false; OutBool false; OutBool true; OutBool true; OutBool false; OutSkip; OutHandle true] /\
+          heap w' 1%N = Some (CItem 1 (NArr false (Some 2%N) 2 [5%N; 5%N])) /\ heap w' 3%N = None
+      | Fault _ => False
+      end
+  | Fault _ => False
+  end.
+Proof. vm_compute. repeat split. Qed.
+(* an indefinite array with a refused growth (exB), a definite and an indefinite map with key = value
+   (exM, exN), an indefinite string with a refused growth of its chunk array (exC) *)
+Example C12_example_indefinite_applies :
+  exists s outs w, run_hist exB_refuse 8 exB_pre s0 [] world0 = Ret (s, outs) w /\
+    seq_ok exB_refuse 8 1 exB_ops s w (mkalist true 0 []).
+Proof. destruct exB_sequence as (s & outs & w & H). exists s, outs, w. tauto. Qed.
+Example C12_example_map_applies :
+  exists s outs w, run_hist HRef_proofs.never 8 exM_pre s0 [] world0 = Ret (s, outs) w /\
+    mseq_ok HRef_proofs.never 8 1 exM_ops s w (mkamap false 2 []).
+Proof. destruct exM_sequence as (s & outs & w & H). exists s, outs, w. tauto. Qed.
+Example C12_example_chunk_applies :
+  exists s outs w, run_hist exC_refuse 8 exC_pre s0 [] world0 = Ret (s, outs) w /\
+    cseq_ok exC_refuse 8 1 exC_ops s w (mkachunks 0 []).
+Proof. exact exC_sequence. Qed.
